@@ -93,6 +93,12 @@ for kind, nm in ((0, 'classic'), (1, 'inplace')):
         grp('help_scan_' + nm, 'h_help_scan', ['C03'], [r'C03\.help_scan_conserves', r'C03\.help_scan_empties_source'], ['basic_smr::help_scan', 'retired_array::interthread_clear'] + SCAN, Q1, (3, 1, 4), scan=kind),
         grp('detach_' + nm, 'h_detach', ['C03', 'C01'], [r'C03\.detach_conserves', r'C03\.detach_releases_record', r'C01\.no_free_while_guarded'], ['basic_smr::free_thread_data', 'thread_hp_storage::clear', 'basic_smr::help_scan'] + SCAN, Q1, (3, 1, 4), scan=kind),
     ]
+for kind, nm in ((0, 'classic'), (1, 'inplace')):
+    x = grp('scan_c01_%s_wide' % nm, 'h_scan_c01', ['C01'], [r'C01\.no_free_while_guarded'], SCAN, (2, 2, 2), (2, 2, 3), scan=kind)
+    x['defines'] = x['defines'] + ['VX_WIDE=34']
+    x['checks'] = ['--no-pointer-check', '--no-pointer-primitive-check']
+    x['bounded'] += '; object addresses are integers below 2^34 (16 GiB span), pointer checks off'
+    GROUPS.append(x)
 GROUPS.append(grp('dtor', 'h_dtor', ['C03'], [r'C03\.dtor_disposes_all', r'C03\.dtor_leaves_nothing'], ['basic_smr::~basic_smr', 'retired_array::reset'], (2, 1, 3), (3, 1, 4)))
 
 UNIT = dict(
